@@ -38,7 +38,7 @@ COMPUTED = ["emodulus", "volume", "area_um", "area_ratio", "aspect", "time", "fl
             "fl2_max_ctc", "fl3_max_ctc", "bright_avg", "bright_sd", "bright_bc_avg",
             "bright_perc_10", "inert_ratio_cvx", "inert_ratio_raw", "inert_ratio_prnc", "tilt",
             "ml_class", "vmon_plugin", "vmon_plugin2", "vmon_plugin2", "vmon_plugin3",
-            "vmon_plugin3", "index"]
+            "vmon_plugin3", "vmon_plugin4", "vmon_plugin4", "index"]
 CFG_CHOICES = {
     ("calculation", "emodulus lut"): ["LE-2D-FEM-19", "HE-2D-FEM-22", "HE-3D-FEM-22"],
     ("calculation", "emodulus medium"): ["CellCarrier", "water", "other", "0.49% MC-PBS",
@@ -104,6 +104,18 @@ def register_plugin():
     dclab.PlugInFeature("vmon_plugin3", {
         "method": method3, "feature names": ["vmon_plugin3"],
         "features required": ["emodulus"], "scalar feature": [True], "version": "0.1"})
+
+    # a plug-in whose check function returns a plain boolean that depends on a setting the
+    # plug-in does not list as required: availability must follow the *current* setting
+    def method4(ds):
+        return {"vmon_plugin4": np.asarray(ds["deform"]) * 10 + 2}
+
+    def check4(ds):
+        return ds.config["setup"].get("chip region", "channel") == "channel"
+    dclab.PlugInFeature("vmon_plugin4", {
+        "method": method4, "feature names": ["vmon_plugin4"],
+        "features required": ["deform"], "method check required": check4,
+        "scalar feature": [True], "version": "0.1"})
 
 
 def gen_data(rng):
@@ -333,7 +345,9 @@ def run_history(ctx, idx, rng, tmp):
             elif r < 0.47 and step % 2 == 0:
                 # chain probe: read a feature that depends on a computed feature, change an
                 # ingredient of the *intermediate* feature only, read again
-                probes = [("vmon_plugin2", "imaging", "pixel size"),
+                probes = [("vmon_plugin4", "setup", "chip region"),
+                          ("vmon_plugin4", "setup", "chip region"),
+                          ("vmon_plugin2", "imaging", "pixel size"),
                           ("vmon_plugin3", "calculation", "emodulus temperature"),
                           ("vmon_plugin3", "setup", "flow rate")]
                 # crosstalk: every matrix element that is set enters the correction, also the
